@@ -59,7 +59,8 @@ def gen_cases(ctx):
                  h1=rng.choice(["partial", "partial", "complete", "rejected", "one"]),
                  updater_opts=rng.choice([{}, {}, {"remove_completed_machine_nodes": False},
                                           {"remove_completed_job_nodes": False}]),
-                 late=rng.random() < 0.3)
+                 late=rng.random() < 0.3,
+                 prune=rng.choice([0, 0, 0, 1, 2, 5]))
         yield c
     for i in range(ctx.scale(250, 48000)):
         c = gen_history_case(rng, max_jobs=rng.choice([2, 3, 4]), max_machines=rng.choice([2, 3]))
@@ -98,7 +99,11 @@ def build_observers(ctx, d, case):
         elif tok == "history":
             d.create_or_get_observer(HistoryObserver)
         elif tok == "graph":
-            ResidualGraphUpdater(d, builders()[case["builder"]](d.instance), **case["updater_opts"])
+            g = builders()[case["builder"]](d.instance)
+            if case.get("prune") and len(g.nodes) > d.instance.num_operations:
+                # the user removed a non-operation node (source, a machine, ...) beforehand
+                g.remove_node(d.instance.num_operations + case["prune"] % (len(g.nodes) - d.instance.num_operations))
+            ResidualGraphUpdater(d, g, **case["updater_opts"])
         elif tok == "composite":
             if any(isinstance(s, FeatureObserver) for s in d.subscribers):
                 CompositeFeatureObserver(d)
